@@ -273,6 +273,7 @@ func (s *Space) variants() []Variant {
 			// the other ignore option does not cover a missing history
 			Variant{Name: "withhold-" + n + "+ignore-inconsistency", Thr: defaultThreshold, Withhold: x, Filter: -1, IgnInc: true, When: whenInterior},
 			Variant{Name: "filter-" + n, Thr: defaultThreshold, Withhold: -1, Filter: x, When: whenInterior},
+			Variant{Name: "filter-" + n + "+location-only-refs", Thr: defaultThreshold, Withhold: -1, Filter: x, LocOnly: true, When: whenInterior},
 		)
 	}
 	for x := range s.Fam.Children {
@@ -735,6 +736,8 @@ func (k *worker) buildParents(t *truth) *parents {
 		for j := range t.slots[i] {
 			if t.slots[i][j].pre != (ann{}) {
 				p.set(i, j, t.slots[i][j].pre)
+			} else if t.v.LocOnly && t.pv[i].Visible {
+				p.set(i, j, ann{Lat: 55.5, Lon: 66.5})
 			}
 		}
 	}
